@@ -33,7 +33,7 @@ CLAIMED.update({
 NOT_YET = {}
 # properties built by sub-tasks: MANIFEST text is taken from notes/Cxx.md (sections **level_claimed.text**, **level_note**,
 # **technique**) once the check has been verified by the owner and listed here
-ACCEPTED_FROM_NOTES = ['C05', 'C06', 'C07', 'C08', 'C09', 'C10', 'C11', 'C12', 'C13', 'C14', 'C17', 'C18', 'C19']
+ACCEPTED_FROM_NOTES = ['C05', 'C06', 'C07', 'C08', 'C09', 'C10', 'C11', 'C12', 'C13', 'C14','C15','C16', 'C17', 'C18', 'C19']
 
 def from_notes(pid):
     import re
